@@ -214,6 +214,7 @@ func init() {
 
 		// errors
 		"errors.Is": extErrorsIs,
+		"errors.As": extErrorsAs,
 
 		// time
 		"time.Sleep": extYield,
@@ -248,6 +249,11 @@ func init() {
 		externals[k] = v
 	}
 	registerVF()
+}
+
+// linknames maps body-less declarations to the function the linker binds them to.
+var linknames = map[string][2]string{
+	"mime/multipart.readMIMEHeader": {"net/textproto", "readMIMEHeader"},
 }
 
 func extYield(fr *frame, args []value) value {
@@ -298,6 +304,17 @@ func (i *interpreter) resolveExternal(fn *ssa.Function) externalFn {
 		}
 	}
 	if fn.Blocks == nil {
+		// a declaration bound to another package's function with go:linkname
+		if ln, ok := linknames[name]; ok {
+			if pkg := i.prog.ImportedPackage(ln[0]); pkg != nil {
+				if t := pkg.Func(ln[1]); t != nil && t.Blocks != nil {
+					i.noteIntercept(name + " -> " + t.String() + " (linkname)")
+					return func(fr *frame, args []value) value {
+						return callSSA(fr.i, fr.caller, 0, t, args, nil)
+					}
+				}
+			}
+		}
 		return func(fr *frame, args []value) value {
 			panic("no code for function: " + name)
 		}
@@ -833,6 +850,63 @@ func extErrorsIs(fr *frame, args []value) value {
 		err = next
 	}
 	return false
+}
+
+// errors.As(err, target): target is a non-nil pointer to a variable of an
+// interface type or of a type implementing error. The chain is walked through
+// Unwrap() error / Unwrap() []error, honouring an As(any) bool method.
+func extErrorsAs(fr *frame, args []value) value {
+	err, target := args[0].(iface), args[1].(iface)
+	if err.t == nil {
+		return false
+	}
+	if target.t == nil {
+		panic(rtErr("errors: target cannot be nil"))
+	}
+	pt, ok := target.t.Underlying().(*types.Pointer)
+	addr, ok2 := target.v.(*value)
+	if !ok || !ok2 || addr == nil {
+		panic(rtErr("errors: target must be a non-nil pointer"))
+	}
+	elem := pt.Elem()
+	var try func(e iface, depth int) bool
+	try = func(e iface, depth int) bool {
+		for ; depth < 32 && e.t != nil; depth++ {
+			if idst, isIface := elem.Underlying().(*types.Interface); isIface {
+				if checkInterface(fr.i, idst, e) == "" {
+					store(elem, addr, e)
+					return true
+				}
+			} else if types.Identical(e.t, elem) {
+				store(elem, addr, e.v)
+				return true
+			}
+			if m := fr.i.findMethod(e.t, "As"); m != nil && m.Signature.Params().Len() == 1 {
+				if b, ok := call(fr.i, fr, 0, m, []value{e.v, target}).(bool); ok && b {
+					return true
+				}
+			}
+			um := fr.i.findMethod(e.t, "Unwrap")
+			if um == nil || um.Signature.Results().Len() != 1 {
+				return false
+			}
+			switch r := call(fr.i, fr, 0, um, []value{e.v}).(type) {
+			case iface:
+				e = r
+			case []value:
+				for _, x := range r {
+					if xe, ok := x.(iface); ok && try(xe, depth+1) {
+						return true
+					}
+				}
+				return false
+			default:
+				return false
+			}
+		}
+		return false
+	}
+	return try(err, 0)
 }
 
 // time.now: (sec int64, nsec int32, mono int64). By default a concrete clock
